@@ -636,3 +636,24 @@ def number_from_form(name, v):
     """inverse of number_form for replays: type name -> the value in that form"""
     import numpy as np
     return {"int": int, "int64": np.int64, "uint64": np.uint64, "float": float, "float64": np.float64}.get(name, int)(v)
+
+
+def regenerate_state_sites(res):
+    """T17 (every property): the places where the sources could keep state outside the modelled objects
+    -> coq/Gen/StateSites.v; Proofs/StateSitesProofs.v proves every list empty"""
+    d = os.path.join(VERIF, "translate")
+    if d not in sys.path:
+        sys.path.insert(0, d)
+    import c2gallina
+    import stateguard
+    try:
+        text = stateguard.translate(REPO)
+    except c2gallina.Unsupported as e:
+        res.broken.append({"what": "T17 (stateguard) cannot read the sources", "log": str(e)})
+        return
+    except Exception as e:  # noqa
+        res.broken.append({"what": "T17 (stateguard) failed", "log": repr(e)})
+        return
+    write_if_changed(os.path.join(COQ, "Gen", "StateSites.v"), text)
+    res.trusted.append("translate/stateguard.py (T17): syntactic list of static locals / mutable globals (clang AST) and of "
+                       "class-level / module-level containers, `global` statements and cache decorators (Python ast)")
